@@ -97,7 +97,10 @@ impl CertificateSigningRequestParams {
 	/// [`rustls_pemfile::csr()`]: https://docs.rs/rustls-pemfile/latest/rustls_pemfile/fn.csr.html
 	#[cfg(feature = "x509-parser")]
 	pub fn from_der(csr: &CertificateSigningRequestDer<'_>) -> Result<Self, Error> {
+		use crate::certificate::write_key_usage_bits;
 		use crate::KeyUsagePurpose;
+		use x509_parser::cri_attributes::ParsedCriAttribute;
+		use x509_parser::der_parser::asn1_rs::{Header, Length};
 		use x509_parser::prelude::FromDer;
 
 		let csr = x509_parser::certification_request::X509CertificationRequest::from_der(csr)
@@ -141,13 +144,42 @@ impl CertificateSigningRequestParams {
 		};
 		let raw = info.subject_pki.subject_public_key.data.to_vec();
 
-		if let Some(extensions) = csr.requested_extensions() {
-			for ext in extensions {
-				match ext {
+		// Whatever the request asks for is carried over or the request is refused: of several
+		// extension requests, several values of one, or a repeated extension, only one would be.
+		let mut requests = info.iter_attributes().filter_map(|attr| {
+			match attr.parsed_attribute() {
+				ParsedCriAttribute::ExtensionRequest(requested) => Some((attr, requested)),
+				_ => None,
+			}
+		});
+		let request = requests.next();
+		if requests.next().is_some() {
+			return Err(Error::UnsupportedExtension);
+		}
+		if let Some((attr, requested)) = request {
+			// `attr.value` ends with the first value of the attribute's SET
+			match Header::from_der(attr.value) {
+				Ok((first, set)) if set.length() == Length::Definite(first.len()) => {},
+				_ => return Err(Error::UnsupportedExtension),
+			}
+			let mut seen = Vec::new();
+			for ext in &requested.extensions {
+				if seen.contains(&&ext.oid) {
+					return Err(Error::UnsupportedExtension);
+				}
+				seen.push(&ext.oid);
+				match ext.parsed_extension() {
 					x509_parser::extensions::ParsedExtension::KeyUsage(key_usage) => {
 						// This x509 parser stores flags in reversed bit BIT STRING order
 						params.key_usages =
 							KeyUsagePurpose::from_u16(key_usage.flags.reverse_bits());
+						// Bits without a `KeyUsagePurpose`, or none at all, cannot be issued
+						let carried = yasna::construct_der(|writer| {
+							write_key_usage_bits(&params.key_usages, writer)
+						});
+						if params.key_usages.is_empty() || carried != ext.value {
+							return Err(Error::UnsupportedExtension);
+						}
 					},
 					x509_parser::extensions::ParsedExtension::SubjectAlternativeName(san) => {
 						for name in &san.general_names {
